@@ -49,6 +49,13 @@ callbacks that read the clock — `loopC`/`stepOpC`/`runOpsC` are runs of `loop`
 (`loopC_exists_kids`, `loopC_transfer`, `loopC_eq_loop_table`, `runOpsC_eq_runOps`); the hypotheses
 decided by the driver (`addsFromB_spec`, `noFuelOutB_spec`, `sortedB_spec`).
 
+Round 5 (sections at the end of the file): times are stored by value — the reference machine
+`stepG`/`runG` over World = system + caller cells (`stored_by_value`, `mutation_irrelevant`,
+`Bad.byReference_counterexample`); a callback that raises and a caller that resumes
+(`interrupted_resume`, `evolveUntil_interrupted_resume`, `interrupted_entry_lost`); totality with an
+explicit fuel for progressing systems (`evolve_total_of_progress`, `evolve_total_of_progress_single`,
+`evolveUntil_spec_total`: the fuel-parameterised statement for the real unbounded loop).
+
 Hypotheses used (each has a satisfiability `example` at the end of the file):
 * `Inv s`   — the queue is what `add_callback` builds (sorted, counters unique and below the
               next counter) and nothing is scheduled before the current clock;
@@ -1390,6 +1397,10 @@ theorem interrupted_entry_lost (kids : Entry → List (Rat × Nat)) (T : Rat) (n
 
 example : (loop selfNow 2 3 (addCallback init 1 0)).status = .outOfFuel :=
   (diverges_zero_delay_reinsertion 3).1
+
+example : (addCallback init 1 0).t ≤ 2 ∧ (evolveUntil selfNow 3 (addCallback init 1 0) 2).status = .outOfFuel ∧
+    InvQ (addCallback init 1 0) :=
+  ⟨by decide +kernel, by decide +kernel, (inv_addCallback inv_init 1 0 (by simp [init])).toQ⟩
 
 /-! ### Round 5 — the termination criterion the code has, with an explicit fuel
 
